@@ -176,7 +176,7 @@ class GuardMgr(object):
         n.known = None  # None | "sat" (proved satisfiable) | "false" | "true"
         n.imp = None  # dict var -> value index implied by this node (sound, incomplete)
         n.supp = 0  # bitmask of variable indices the node syntactically depends on
-        n.tags = None  # {partition id: (frozenset of block indices, exact)}: node => OR of blocks
+        n.tags = None  # {partition id: (bitmask of block indices, exact)}: node => OR of blocks
         self.nodes.append(n)
         return n
 
@@ -248,7 +248,7 @@ class GuardMgr(object):
         if a.tags:
             for pid, (sx, ex) in a.tags.items():
                 if ex and self.is_total(pid):
-                    comp = self.part_all[pid] - sx
+                    comp = self.part_all[pid] & ~sx
                     if not comp:
                         a.neg = self.FALSE
                         if n is not None:
@@ -378,13 +378,19 @@ class GuardMgr(object):
         if ia and ib:
             if len(ia) > len(ib):
                 ia, ib = ib, ia
+            grow = False
             for k, v in ia.items():
                 w = ib.get(k)
-                if w is not None and w != v:
+                if w is None:
+                    grow = True
+                elif w != v:
                     self.hc[key] = F
                     return F
-            imp = dict(ib)
-            imp.update(ia)
+            if grow:
+                imp = dict(ib)
+                imp.update(ia)
+            else:
+                imp = ib  # shared, never mutated
         else:
             imp = ia or ib
         n = self._mk("and", a, b)
@@ -545,12 +551,13 @@ class GuardMgr(object):
                     if not blocks:
                         continue
                     cov = 0
-                    for i in sx:
-                        cov |= self.find(blocks[i]).sig
+                    for i in range(len(blocks)):
+                        if (sx >> i) & 1:
+                            cov |= self.find(blocks[i]).sig
                     if ex and cov != n.sig:
-                        bad.append((n.id, n.kind, pid, sorted(sx)[:6], "exact"))
+                        bad.append((n.id, n.kind, pid, bin(sx)[-12:], "exact"))
                     elif not ex and (n.sig & ~cov):
-                        bad.append((n.id, n.kind, pid, sorted(sx)[:6], "upper-bound"))
+                        bad.append((n.id, n.kind, pid, bin(sx)[-12:], "upper-bound"))
         return bad
 
     def _evict(self, tags, keep):
@@ -613,10 +620,10 @@ class GuardMgr(object):
         self._pid += 1
         pid = self._pid
         self.part_total[pid] = True if (bool(total) and len(gs) == len(guards)) else None
-        self.part_all[pid] = frozenset(range(len(gs)))
+        self.part_all[pid] = (1 << len(gs)) - 1
         self.part_blocks[pid] = gs
         for i, g in enumerate(gs):
-            t = (frozenset((i,)), True)
+            t = (1 << i, True)
             self.tagrep.setdefault((pid, t[0]), g)
             if g.tags is None:
                 g.tags = {pid: t}
